@@ -34,9 +34,10 @@ READ_AGAINST_MODEL = {
 def build(chk):
     """-> (binary | None, info). info['skipped'] is set when the toolchain's source is not recognised."""
     try:
-        text, info = mxgen.generate(env=common.GOENV)
+        # VERIF_MUTEX_GOROOT: read the source under another root (to try the generator on other toolchains' sources)
+        text, info = mxgen.generate(env=common.GOENV, root=os.environ.get("VERIF_MUTEX_GOROOT") or None)
     except mxgen.NotRecognised as e:
-        return None, dict(skipped="sync.Mutex source of this toolchain not recognised; stream skipped (%s)" % e)
+        return None, dict(e.info or {}, skipped="sync.Mutex source of this toolchain not recognised; stream skipped (%s)" % e)
     except Exception as e:  # unreadable GOROOT etc.: a toolchain matter, not one of lixianmin/got
         return None, dict(skipped="sync.Mutex source of this toolchain not readable; stream skipped (%r)" % (e,))
     info["read_against_model"] = READ_AGAINST_MODEL.get(info["functions_sha256"], "no (shape recognised, text differs from the versions read by hand)")
@@ -259,37 +260,48 @@ def monitor(case, impl, skip=()):
     holders = []
     word = 0
     seq = p["steps"] + p["fin"]
+    fails = []
     for k, (tid, what, w, tok) in enumerate(seq):
         before = word
         word = w
         if what.endswith(">panic"):
-            return ("mutex-throw", "step %d: thread %d at %s: the mutex code threw (%s) -- sync.Mutex's own consistency check / "
-                    "'unlock of unlocked mutex' fired under Lock/TryLock/Unlock by well-formed callers" % (k, tid, what, p["msg"]))
+            fails.append(("mutex-throw", "step %d: thread %d at %s: the mutex code threw (%s) -- sync.Mutex's own consistency check / "
+                          "'unlock of unlocked mutex' fired under Lock/TryLock/Unlock by well-formed callers" % (k, tid, what, p["msg"])))
+            if tid in holders:
+                holders.remove(tid)
         if what == "inv>U1":
             if tid in holders:
                 holders.remove(tid)
         elif what.endswith(">ret:lock") or what.endswith(">ret:try=true"):
             holders.append(tid)
             if len(holders) > 1:
-                return ("two-holders", "step %d: thread %d returned from %s while thread %d still holds the mutex (word before %d, after %d): "
-                        "two holders" % (k, tid, "TryLock()=true" if "try" in what else "Lock()", holders[0], before, w))
+                fails.append(("two-holders", "step %d: thread %d returned from %s while thread %d still holds the mutex (word before %d, after %d): "
+                              "two holders" % (k, tid, "TryLock()=true" if "try" in what else "Lock()", holders[0], before, w)))
             if what.endswith("try=true") and "trylock-while-held" not in skip:
                 if before & 1 or before & 4:
-                    return ("trylock-while-held", "step %d: TryLock returned true on state word %d (locked=%d starving=%d)" % (k, before, before & 1, (before >> 2) & 1))
+                    fails.append(("trylock-while-held", "step %d: TryLock returned true on state word %d (locked=%d starving=%d)" % (k, before, before & 1, (before >> 2) & 1)))
                 if w != before | 1:
-                    return ("trylock-word", "step %d: TryLock returned true: word %d -> %d, must only set the locked bit" % (k, before, w))
+                    fails.append(("trylock-word", "step %d: TryLock returned true: word %d -> %d, must only set the locked bit" % (k, before, w)))
         elif what.endswith(">ret:try=false") or what.startswith("T1:") or what.startswith("T2:"):
             if w != before:
-                return ("trylock-word", "step %d: a TryLock access that did not acquire changed the word %d -> %d" % (k, before, w))
+                fails.append(("trylock-word", "step %d: a TryLock access that did not acquire changed the word %d -> %d" % (k, before, w)))
         if holders and not (w & 1):
-            return ("holder-unlocked-word", "step %d: thread %d holds the mutex but the locked bit of the word %d is clear" % (k, holders[0], w))
+            fails.append(("holder-unlocked-word", "step %d: thread %d holds the mutex but the locked bit of the word %d is clear" % (k, holders[0], w)))
         if w < 0:
-            return ("word-negative", "step %d: state word %d" % (k, w))
+            fails.append(("word-negative", "step %d: state word %d" % (k, w)))
     if p["stuck"]:
-        return ("lost-wakeup", "threads stay blocked in SemacquireMutex for ever although every holder unlocked (word %d)" % word)
-    if seq and (seq[-1][2] != 0 or seq[-1][3] != 0) and not holders:
-        return ("unlock", "every call returned but the state word is %d with %d semaphore token(s) left" % (seq[-1][2], seq[-1][3]))
-    return None
+        fails.append(("lost-wakeup", "threads stay blocked in SemacquireMutex for ever although every holder unlocked (word %d)" % word))
+    if seq and (seq[-1][2] != 0 or seq[-1][3] != 0) and not holders and not p["stuck"]:
+        fails.append(("unlock", "every call returned but the state word is %d with %d semaphore token(s) left" % (seq[-1][2], seq[-1][3])))
+    if not fails:
+        return None
+    # one case, one report: the gravest consequence first, then the earliest
+    prio = ["two-holders", "mutex-throw", "lost-wakeup", "holder-unlocked-word", "trylock-while-held", "trylock-word", "word-negative", "unlock"]
+    fails.sort(key=lambda f: prio.index(f[0]))
+    what = fails[0][1]
+    if len(fails) > 1:
+        what += " [also: " + "; ".join(sorted(set(f[0] for f in fails[1:]))) + "]"
+    return (fails[0][0], what)
 
 
 def coverage(impl_lines):
@@ -418,12 +430,18 @@ def run(chk):
         return
     model = common.run_model(cases)
     seen = set()
+    unread = info["functions_sha256"] not in READ_AGAINST_MODEL
+    stale = []
     for n, c, m, i in zip(names, cases, model, impl):
         chk.count_case(n, c, nontrivial(c, m))
         chk.cov["programs"] += 1
         note = compare(c, m, i)
         chk.cov["disagreements_checked"] += 1
-        if note is not None:
+        if note is not None and unread:
+            # a source text nobody compared with MutexWord.v: a step difference says the MODEL does not describe
+            # this toolchain's sync.Mutex -- a toolchain matter; the monitors below still judge the real code
+            stale.append((c, note))
+        elif note is not None:
             chk.diverge(n, c, m, i, note)
         else:
             chk.cov["traces_validated_against_impl"] += 1
@@ -433,14 +451,20 @@ def run(chk):
         if n not in seen:
             seen.add(n)
             chk.sample(dict(stream=n, case=c[:400], model=m[:400], impl=i[:400]), limit=16)
+    if stale:
+        chk.cov["mx_note"] = ("the sync.Mutex source of this toolchain has the known shape but a text that was not read against MutexWord.v, and "
+                              "the model does not step like it (%d of %d cases differ; first: %s -- %s); the stream is inconclusive for this toolchain, "
+                              "only its monitors were applied" % (len(stale), len(cases), stale[0][0][:300], stale[0][1][:300]))
     pcs, feats = coverage(impl)
     chk.cov["mx_pcs_stepped"] = pcs
     chk.cov["mx_features"] = feats
     missing = [p for p in ALL_PCS if not pcs.get(p)]
     wanted = [k for k in ("starvation_mode", "handoff_acquire", "spin_cas_ok", "woken_waiter", "trylock_in_starvation",
                           "trylock_true_cas2", "unlockslow_reload") if not feats[k]]
-    if missing or wanted:
+    if (missing or wanted) and not stale:
         chk.infra_errors.append("mutex-stepped stream did not exercise: pcs %s, situations %s" % (missing, wanted))
+    if stale:
+        return
     try:
         canary(chk, binary)
         sample = []
